@@ -93,7 +93,16 @@ int main()
     } else if (t[0] == "ls" && a.size() >= 2) {
       int m = static_cast<int>(a[0]), n = static_cast<int>(a[1]);
       if (static_cast<int>(a.size()) != 2 + m * n + n + 1 + n * n) {std::cout << "?\n"; continue;}
-      LeastSquares<double> ls(n, m);
+      // the solver object is REUSED: it first solves a larger, unrelated problem (m + 5 rows), then is resized to this
+      // case's m rows — nothing of the first problem (stale rows beyond dataSize, the old inverse) may enter the covariance
+      LeastSquares<double> ls(n, m + 5);
+      for (int i = 0; i < (m + 5) * n; ++i) {
+        ls.getJ()(i / n, i % n) = ((i / n) % n == i % n ? 3.0 : 0.0) + static_cast<double>((i * 7 + 3) % 11) - 5.0;
+      }
+      for (int i = 0; i < m + 5; ++i) {ls.getY()(i) = 2.0 - i;}
+      ls.estimateUsingCholeskyDecomposition();
+      (void)ls.computeEstimateCovariance(1.0);
+      ls.setDataSize(m);
       for (int i = 0; i < m * n; ++i) {ls.getJ()(i / n, i % n) = a[2 + i];}
       for (int i = 0; i < m; ++i) {ls.getY()(i) = 1.0 + i;}
       Eigen::MatrixXd ac = Eigen::MatrixXd::Zero(n, n);
@@ -105,7 +114,16 @@ int main()
       // as "ls" with a full (generally non-symmetric) preconditioner matrix Ac, row-major
       int m = static_cast<int>(a[0]), n = static_cast<int>(a[1]);
       if (static_cast<int>(a.size()) != 2 + m * n + n * n + 1 + n * n) {std::cout << "?\n"; continue;}
-      LeastSquares<double> ls(n, m);
+      // the solver object is REUSED: it first solves a larger, unrelated problem (m + 5 rows), then is resized to this
+      // case's m rows — nothing of the first problem (stale rows beyond dataSize, the old inverse) may enter the covariance
+      LeastSquares<double> ls(n, m + 5);
+      for (int i = 0; i < (m + 5) * n; ++i) {
+        ls.getJ()(i / n, i % n) = ((i / n) % n == i % n ? 3.0 : 0.0) + static_cast<double>((i * 7 + 3) % 11) - 5.0;
+      }
+      for (int i = 0; i < m + 5; ++i) {ls.getY()(i) = 2.0 - i;}
+      ls.estimateUsingCholeskyDecomposition();
+      (void)ls.computeEstimateCovariance(1.0);
+      ls.setDataSize(m);
       for (int i = 0; i < m * n; ++i) {ls.getJ()(i / n, i % n) = a[2 + i];}
       for (int i = 0; i < m; ++i) {ls.getY()(i) = 1.0 + i;}
       Eigen::MatrixXd ac = Eigen::MatrixXd::Zero(n, n);
